@@ -24,6 +24,7 @@ RULE = ("operation lists (Hypothesis, shrinkable, replayable) interpreted agains
         "handler thread, events keep flowing after handler exceptions, connected clients carry pairwise distinct tokens. "
         "non-trivial = >= 2 clients overlapping in time with a handler exception or a same-address reconnect or a token-pool "
         "collision; distinct by hash of the operation list.")
+RULE += (" " + 'Round-8 addition: the starting event may raise too (it runs before the first tick).')
 ASSUMPTIONS = [
     "receive thread and loop thread are serialised (lock-step): races between them are not explored (DESIGN section 5)",
     "a disconnect is 'justified by silence' when the server's own last receive instant for that client is >= the timeout old",
